@@ -22,6 +22,17 @@ The theorems describe the code with the repairs /verif/fixes/C17-*.patch applied
 repair `MerkleAccumulator::add_merkle_leaf` falsified `leaves_depend_on_concat` (first chunk of
 at most 8 bytes: the chunk was dropped and 8 further bytes skipped) and `variable_sizes_sum`
 (an empty chunk recorded a zero-length leaf with an empty digest).
+
+Limits that are part of the statements (and of the code):
+* the validator refuses an mdat with more than `MAX_MERKLE_LEAVES_SIZE / digest length` leaves
+  (2^20 for SHA-256).  Since fixes/C17-signing-histories.patch the signer refuses exactly those
+  (`signer_stores_iff_validator_accepts_*`); before, it stored maps no reader accepts
+  (`pre_fix_signer_validator_asymmetry_*`).  `Budget` is the input-level form of the limit.
+* an asset with several mdats of which one has no covered byte does not verify
+  (`uncovered_mdat_rejected`; open finding); all mdats uncovered gives no Merkle maps at all
+  (`all_uncovered_no_maps`).
+* the leaf size is documented to be set before the first chunk; `setFixed_first` covers that,
+  the `example`s at the end show what a later change does (refusal or an unverifiable map).
 -/
 namespace C2pa.C17
 
@@ -82,6 +93,48 @@ theorem variable_sizes_sum (large : Bool) (cs : List (List β)) :
     rw [this, sum_map_length_flatten, hfl]
     simp
 
+theorem addLeaf_var_count (large : Bool) (st st' : MdatState β) (data : List β)
+    (h : addLeaf none large st data = .ok st') :
+    st'.leaves.length ≤ st.leaves.length + 1 ∧ st'.rem = st.rem := by
+  cases large with
+  | true =>
+    simp only [addLeaf, ↓reduceIte] at h
+    split at h
+    · simp only [Except.ok.injEq] at h; subst h; exact ⟨by omega, rfl⟩
+    · simp only [Except.ok.injEq] at h; subst h; simp
+  | false =>
+    simp only [addLeaf, Bool.false_eq_true, ↓reduceIte] at h
+    split at h
+    · simp only [Except.ok.injEq] at h; subst h; exact ⟨by simp, rfl⟩
+    · simp only [Except.ok.injEq] at h; subst h; simp
+
+theorem runMdat_var_count (large : Bool) (cs : List (List β)) (st st' : MdatState β)
+    (h : runMdat none large st cs = .ok st') :
+    st'.leaves.length ≤ st.leaves.length + cs.length ∧ st'.rem = st.rem := by
+  induction cs generalizing st with
+  | nil => simp only [runMdat, Except.ok.injEq] at h; subst h; simp
+  | cons c cs ih =>
+    simp only [runMdat] at h
+    split at h
+    · rename_i st1 h1
+      obtain ⟨a1, a2⟩ := addLeaf_var_count large st st1 c h1
+      obtain ⟨b1, b2⟩ := ih st1 h
+      exact ⟨by simp only [List.length_cons]; omega, by rw [b2, a2]⟩
+    · simp at h
+
+/-- variable sizes: at most one leaf per delivered chunk -/
+theorem variable_leafcount_le (large : Bool) (cs : List (List β)) (ls : List (Leaf β))
+    (h : finalLeaves none large cs = .ok ls) : ls.length ≤ cs.length := by
+  simp only [finalLeaves] at h
+  split at h
+  · rename_i st hst
+    obtain ⟨h1, h2⟩ := runMdat_var_count large cs {} st hst
+    simp only [Except.ok.injEq] at h
+    subst h
+    have : st.rem = none := h2
+    simpa [flush, this] using h1
+  · simp at h
+
 /-! ### the verifier accepts what the accumulator recorded -/
 
 /-- the mdat box as the verifier reads it: a header of 8 (16 for large-size) bytes, then the
@@ -100,18 +153,45 @@ theorem box_region (large : Bool) (hdr payload box : List β) (h : IsBox large h
     simp only [Bool.false_eq_true, if_false] at hl
     simp [covered, List.drop_append, hl]
 
-/-- Fixed leaf size (`F > 1`; the public setter takes KiB): the MerkleMap built from the
-accumulated leaves verifies against the mdat box, for every chunking (`covered payload`
-non-empty, i.e. the mdat has a Merkle map at all). -/
-theorem accumulated_verifies_fixed [DecidableEq β] (F : Nat) (hF : 1 < F) (large : Bool)
-    (cs : List (List β)) (hdr box : List β) (id : Nat)
+/-- the leaf-memory budget of the validator, on the caller's inputs: with a fixed leaf size the
+covered payload has at most `MAX / hsz` blocks; with variable sizes at most that many chunks are
+delivered (each chunk gives at most one leaf) -/
+def Budget (fixed : Option Nat) (hsz : Nat) (large : Bool) (cs : List (List β)) : Prop :=
+  match fixed with
+  | some F => divCeil (covered large cs.flatten).length F * hsz ≤ maxMerkleLeavesSize
+  | none => cs.length * hsz ≤ maxMerkleLeavesSize
+
+instance (fixed : Option Nat) (hsz : Nat) (large : Bool) (cs : List (List β)) :
+    Decidable (Budget fixed hsz large cs) :=
+  match fixed with
+  | some F =>
+    inferInstanceAs (Decidable (divCeil (covered large cs.flatten).length F * hsz ≤ maxMerkleLeavesSize))
+  | none => inferInstanceAs (Decidable (cs.length * hsz ≤ maxMerkleLeavesSize))
+
+theorem mkMap_of_cap (fixed : Option Nat) (hsz id : Nat) (leaves : List (Leaf β)) :
+    mkMap fixed hsz id leaves =
+      if capOk hsz leaves.length then mkMapPre fixed hsz id leaves else .error .tooManyLeaves := by
+  unfold mkMap
+  cases capOk hsz leaves.length <;> simp
+
+/-- **Fixed leaf size, signer and validator agree on the budget.**  For every chunking the
+accumulated leaves are the `⌈|covered payload| / F⌉` blocks; the map `create_mms_from_mdat_leaves`
+would store for them (`mkMapPre`: the code before the budget check) verifies against the mdat box
+**iff** the leaf vector fits `MAX_MERKLE_LEAVES_SIZE`, and the repaired signer stores it iff it
+fits. -/
+theorem signer_stores_iff_validator_accepts_fixed [DecidableEq β] (F : Nat) (hF : 1 < F)
+    (hsz : Nat) (large : Bool) (cs : List (List β)) (hdr box : List β) (id : Nat)
     (hbox : IsBox large hdr cs.flatten box) (hne : covered large cs.flatten ≠ []) :
-    ∃ leaves mm ranges, finalLeaves (some F) large cs = .ok leaves
+    ∃ leaves mm, finalLeaves (some F) large cs = .ok leaves
       ∧ leaves ≠ []
-      ∧ mkMap (some F) id leaves = .ok mm
-      ∧ mm.varSizes = none
-      ∧ mdatRanges mm box = some ranges
-      ∧ checkMap mm ranges = true := by
+      ∧ leaves.length = divCeil (covered large cs.flatten).length F
+      ∧ mkMapPre (some F) hsz id leaves = .ok mm
+      ∧ mm.varSizes = none ∧ mm.id = id
+      ∧ ((∃ ranges, mdatRanges mm box = .ok ranges ∧ checkMap mm ranges = true)
+          ↔ leaves.length * hsz ≤ maxMerkleLeavesSize)
+      ∧ (mkMap (some F) hsz id leaves = .ok mm ↔ leaves.length * hsz ≤ maxMerkleLeavesSize)
+      ∧ (mkMap (some F) hsz id leaves = .error .tooManyLeaves
+          ↔ ¬ leaves.length * hsz ≤ maxMerkleLeavesSize) := by
   have hF0 : 0 < F := by omega
   let D := covered large cs.flatten
   have hreg := box_region large hdr cs.flatten box hbox
@@ -120,70 +200,182 @@ theorem accumulated_verifies_fixed [DecidableEq β] (F : Nat) (hF : 1 < F) (larg
       simp [leafOf, Function.comp_def]
     rw [this, sum_map_length_flatten, chunksOf_flatten F D hF0]
   have hFne : ¬ F = 0 := by omega
-  have hpos : 0 < D.length := List.length_pos_iff.mpr hne
-  refine ⟨(chunksOf F D).map leafOf,
+  let mm : MMap β :=
     { id := id, count := ((chunksOf F D).map leafOf).length,
       hashes := ((chunksOf F D).map leafOf).map (·.hash),
-      fixedBlock := some (if D.length > 1 then min D.length F else F), varSizes := none },
-    chunksOf F D, leaves_depend_on_concat F hF0 large cs, ?_, ?_, rfl, ?_, ?_⟩
+      fixedBlock := some (if D.length > 1 then min D.length F else F), varSizes := none,
+      hsz := hsz }
+  have hpre : mkMapPre (some F) hsz id ((chunksOf F D).map leafOf) = .ok mm := by
+    simp only [mkMapPre, hFne, if_false, hsum, mm]
+  have hranges := mdatRanges_fixed F hF D box hne hreg mm rfl
+  have hcm : checkMap mm (chunksOf F D) = true := by
+    apply checkMap_blocks _ _ (chunksOf_ne_nil F D)
+    · simp [mm]
+    · simp [mm, leafOf, Function.comp_def]
+  have hlen : ((chunksOf F D).map leafOf).length = (chunksOf F D).length := by simp
+  refine ⟨(chunksOf F D).map leafOf, mm, leaves_depend_on_concat F hF0 large cs, ?_, ?_, hpre,
+    rfl, rfl, ?_, ?_, ?_⟩
   · rw [chunksOf_cons F D hF0 hne]; simp
-  · simp only [mkMap, hFne, if_false, hsum]
-  · simp only [mdatRanges, hreg]
-    by_cases h1 : D.length > 1
-    · have hfb : ¬ min D.length F ≤ 1 := by omega
-      simp only [h1, if_true, hfb, if_false]
-      rw [fixedRanges_eq_chunksOf _ _ (by omega), chunksOf_min F D hF0 hne]
-    · have hfb : ¬ F ≤ 1 := by omega
-      simp only [h1, if_false, hfb]
-      rw [fixedRanges_eq_chunksOf _ _ hF0]
-  · apply checkMap_blocks _ _ (chunksOf_ne_nil F D)
-    · simp
-    · simp [leafOf, Function.comp_def]
+  · rw [hlen]; exact chunksOf_length F D hF0
+  · rw [hlen, ← capOk_iff]
+    show _ ↔ capOk mm.hsz _ = true
+    constructor
+    · rintro ⟨ranges, hr, _⟩
+      rw [hranges] at hr
+      cases hc : capOk mm.hsz (chunksOf F D).length with
+      | true => rfl
+      | false => simp [hc] at hr
+    · intro hc
+      exact ⟨chunksOf F D, by rw [hranges, hc]; rfl, hcm⟩
+  · rw [mkMap_of_cap, hpre, ← capOk_iff]
+    cases capOk hsz ((chunksOf F D).map leafOf).length <;> simp
+  · rw [mkMap_of_cap, hpre, ← capOk_iff]
+    cases capOk hsz ((chunksOf F D).map leafOf).length <;> simp
 
-/-- Variable leaf sizes: likewise. -/
-theorem accumulated_verifies_variable [DecidableEq β] (large : Bool) (cs : List (List β))
-    (hdr box : List β) (id : Nat) (hbox : IsBox large hdr cs.flatten box) :
-    ∃ leaves mm ranges, finalLeaves none large cs = .ok leaves
-      ∧ (covered large cs.flatten ≠ [] → leaves ≠ [])
-      ∧ mkMap none id leaves = .ok mm
-      ∧ mm.fixedBlock = none
-      ∧ mdatRanges mm box = some ranges
+/-- Fixed leaf size (`F > 1`; the public setter takes KiB): the MerkleMap built from the
+accumulated leaves verifies against the mdat box, for every chunking (`covered payload`
+non-empty, i.e. the mdat has a Merkle map at all; at most `MAX / hsz` blocks). -/
+theorem accumulated_verifies_fixed [DecidableEq β] (F : Nat) (hF : 1 < F) (hsz : Nat) (large : Bool)
+    (cs : List (List β)) (hdr box : List β) (id : Nat)
+    (hbox : IsBox large hdr cs.flatten box) (hne : covered large cs.flatten ≠ [])
+    (hcap : Budget (some F) hsz large cs) :
+    ∃ leaves mm ranges, finalLeaves (some F) large cs = .ok leaves
+      ∧ leaves ≠ []
+      ∧ mkMap (some F) hsz id leaves = .ok mm
+      ∧ mm.varSizes = none ∧ mm.id = id
+      ∧ mdatRanges mm box = .ok ranges
       ∧ checkMap mm ranges = true := by
+  obtain ⟨leaves, mm, h1, h2, h3, _, h5, h5', h6, h7, _⟩ :=
+    signer_stores_iff_validator_accepts_fixed F hF hsz large cs hdr box id hbox hne
+  have hb : leaves.length * hsz ≤ maxMerkleLeavesSize := by rw [h3]; exact hcap
+  obtain ⟨ranges, hr, hc⟩ := h6.mpr hb
+  exact ⟨leaves, mm, ranges, h1, h2, h7.mpr hb, h5, h5', hr, hc⟩
+
+/-- Over the budget the repaired signer refuses (`update_hash_from_stream` returns an error)
+instead of storing a map that cannot verify. -/
+theorem over_budget_refused_fixed [DecidableEq β] (F : Nat) (hF : 1 < F) (hsz : Nat) (large : Bool)
+    (cs : List (List β)) (hdr box : List β) (id : Nat)
+    (hbox : IsBox large hdr cs.flatten box) (hne : covered large cs.flatten ≠ [])
+    (hcap : ¬ Budget (some F) hsz large cs) :
+    ∃ leaves, finalLeaves (some F) large cs = .ok leaves
+      ∧ mkMap (some F) hsz id leaves = .error .tooManyLeaves := by
+  obtain ⟨leaves, mm, h1, _, h3, _, _, _, _, _, h8⟩ :=
+    signer_stores_iff_validator_accepts_fixed F hF hsz large cs hdr box id hbox hne
+  exact ⟨leaves, h1, h8.mpr (by rw [h3]; exact hcap)⟩
+
+/-- **The defect repaired by the budget check in the signer**: over the budget the old
+`create_mms_from_mdat_leaves` stored a map and the validator refuses it — for *every* chunking
+(the leaf count of a fixed-size tree does not depend on the chunking). -/
+theorem pre_fix_signer_validator_asymmetry_fixed [DecidableEq β] (F : Nat) (hF : 1 < F) (hsz : Nat)
+    (large : Bool) (cs : List (List β)) (hdr box : List β) (id : Nat)
+    (hbox : IsBox large hdr cs.flatten box) (hne : covered large cs.flatten ≠ [])
+    (hcap : ¬ Budget (some F) hsz large cs) :
+    ∃ leaves mm, finalLeaves (some F) large cs = .ok leaves
+      ∧ mkMapPre (some F) hsz id leaves = .ok mm
+      ∧ ¬ ∃ ranges, mdatRanges mm box = .ok ranges ∧ checkMap mm ranges = true := by
+  obtain ⟨leaves, mm, h1, _, h3, h4, _, _, h6, _, _⟩ :=
+    signer_stores_iff_validator_accepts_fixed F hF hsz large cs hdr box id hbox hne
+  exact ⟨leaves, mm, h1, h4, fun h => hcap (by have := h6.mp h; rw [h3] at this; exact this)⟩
+
+/-- **Variable leaf sizes, signer and validator agree on the budget**: one leaf per chunk that
+contributes bytes (so at most `cs.length`), and the stored map verifies iff the leaf vector fits;
+the repaired signer stores it iff it fits. -/
+theorem signer_stores_iff_validator_accepts_variable [DecidableEq β] (hsz : Nat) (large : Bool)
+    (cs : List (List β)) (hdr box : List β) (id : Nat) (hbox : IsBox large hdr cs.flatten box) :
+    ∃ leaves mm, finalLeaves none large cs = .ok leaves
+      ∧ (covered large cs.flatten ≠ [] → leaves ≠ [])
+      ∧ leaves.length ≤ cs.length
+      ∧ mkMapPre none hsz id leaves = .ok mm
+      ∧ mm.fixedBlock = none ∧ mm.id = id
+      ∧ ((∃ ranges, mdatRanges mm box = .ok ranges ∧ checkMap mm ranges = true)
+          ↔ leaves.length * hsz ≤ maxMerkleLeavesSize)
+      ∧ (mkMap none hsz id leaves = .ok mm ↔ leaves.length * hsz ≤ maxMerkleLeavesSize)
+      ∧ (mkMap none hsz id leaves = .error .tooManyLeaves
+          ↔ ¬ leaves.length * hsz ≤ maxMerkleLeavesSize) := by
   obtain ⟨pieces, hfin, hp, hfl, hsum⟩ := variable_sizes_sum large cs
   have hreg := box_region large hdr cs.flatten box hbox
-  refine ⟨pieces.map leafOf,
+  have hsz' : (pieces.map leafOf).map (·.len) = pieces.map List.length := by
+    simp [leafOf, Function.comp_def]
+  let mm : MMap β :=
     { id := id, count := (pieces.map leafOf).length, hashes := (pieces.map leafOf).map (·.hash),
-      fixedBlock := none, varSizes := some ((pieces.map leafOf).map (·.len)) },
-    pieces, hfin, ?_, rfl, rfl, ?_, ?_⟩
+      fixedBlock := none, varSizes := some ((pieces.map leafOf).map (·.len)), hsz := hsz }
+  have hpre : mkMapPre none hsz id (pieces.map leafOf) = .ok mm := rfl
+  have hranges := mdatRanges_var pieces box (by rw [hreg, hfl]) mm rfl (by simp [mm, hsz'])
+  have hcm : checkMap mm pieces = true := by
+    apply checkMap_blocks _ _ hp
+    · simp [mm]
+    · simp [mm, leafOf, Function.comp_def]
+  have hlen : (pieces.map leafOf).length = pieces.length := by simp
+  refine ⟨pieces.map leafOf, mm, hfin, ?_, ?_, hpre, rfl, rfl, ?_, ?_, ?_⟩
   · intro hne hnil
     have : pieces = [] := List.map_eq_nil_iff.mp hnil
     rw [this] at hfl
     exact hne (by simpa using hfl.symm)
-  · have hsz : (pieces.map leafOf).map (·.len) = pieces.map List.length := by
-      simp [leafOf, Function.comp_def]
-    simp only [mdatRanges, hreg, hsz, sum_map_length_flatten, hfl, ne_eq, not_true_eq_false, if_false]
-    have := varRanges_pieces pieces []
-    rw [List.append_nil, hfl] at this
-    rw [this]
-  · apply checkMap_blocks _ _ hp
-    · simp
-    · simp [leafOf, Function.comp_def]
+  · exact variable_leafcount_le large cs _ hfin
+  · rw [hlen, ← capOk_iff]
+    show _ ↔ capOk mm.hsz _ = true
+    constructor
+    · rintro ⟨ranges, hr, _⟩
+      rw [hranges] at hr
+      cases hc : capOk mm.hsz pieces.length with
+      | true => rfl
+      | false => simp [hc] at hr
+    · intro hc
+      exact ⟨pieces, by rw [hranges, hc]; rfl, hcm⟩
+  · rw [mkMap_of_cap, hpre, ← capOk_iff]
+    cases capOk hsz (pieces.map leafOf).length <;> simp
+  · rw [mkMap_of_cap, hpre, ← capOk_iff]
+    cases capOk hsz (pieces.map leafOf).length <;> simp
+
+/-- Variable leaf sizes: the stored map verifies for every chunking with at most `MAX / hsz`
+chunks. -/
+theorem accumulated_verifies_variable [DecidableEq β] (hsz : Nat) (large : Bool) (cs : List (List β))
+    (hdr box : List β) (id : Nat) (hbox : IsBox large hdr cs.flatten box)
+    (hcap : Budget none hsz large cs) :
+    ∃ leaves mm ranges, finalLeaves none large cs = .ok leaves
+      ∧ (covered large cs.flatten ≠ [] → leaves ≠ [])
+      ∧ mkMap none hsz id leaves = .ok mm
+      ∧ mm.fixedBlock = none ∧ mm.id = id
+      ∧ mdatRanges mm box = .ok ranges
+      ∧ checkMap mm ranges = true := by
+  obtain ⟨leaves, mm, h1, h2, h3, _, h5, h5', h6, h7, _⟩ :=
+    signer_stores_iff_validator_accepts_variable hsz large cs hdr box id hbox
+  have hb : leaves.length * hsz ≤ maxMerkleLeavesSize :=
+    Nat.le_trans (Nat.mul_le_mul_right hsz h3) hcap
+  obtain ⟨ranges, hr, hc⟩ := h6.mpr hb
+  exact ⟨leaves, mm, ranges, h1, h2, h7.mpr hb, h5, h5', hr, hc⟩
+
+/-- the same defect with variable leaf sizes: more leaves than the budget (e.g. a 5 GB mdat
+delivered in 4 KiB writes) gave a stored map that the validator refuses -/
+theorem pre_fix_signer_validator_asymmetry_variable [DecidableEq β] (hsz : Nat) (large : Bool)
+    (cs : List (List β)) (hdr box : List β) (id : Nat) (hbox : IsBox large hdr cs.flatten box)
+    (leaves : List (Leaf β)) (hl : finalLeaves none large cs = .ok leaves)
+    (hcap : ¬ leaves.length * hsz ≤ maxMerkleLeavesSize) :
+    ∃ mm, mkMapPre none hsz id leaves = .ok mm
+      ∧ (¬ ∃ ranges, mdatRanges mm box = .ok ranges ∧ checkMap mm ranges = true)
+      ∧ mkMap none hsz id leaves = .error .tooManyLeaves := by
+  obtain ⟨leaves', mm, h1, _, _, h4, _, _, h6, _, h8⟩ :=
+    signer_stores_iff_validator_accepts_variable hsz large cs hdr box id hbox
+  have : leaves' = leaves := by rw [h1] at hl; simpa using hl
+  subst this
+  exact ⟨mm, h4, fun h => hcap (h6.mp h), h8.mpr hcap⟩
 
 /-- An asset with a single mdat: `validate_merkle_maps_mdat_boxes` succeeds for every chunking
 and both leaf-size modes. -/
 theorem single_mdat_asset_verifies [DecidableEq β] (fixed : Option Nat) (hF : ∀ F, fixed = some F → 1 < F)
-    (large : Bool) (cs : List (List β)) (hdr box : List β)
-    (hbox : IsBox large hdr cs.flatten box) (hne : covered large cs.flatten ≠ []) :
-    ∃ leaves mm, finalLeaves fixed large cs = .ok leaves ∧ mkMap fixed 0 leaves = .ok mm
+    (hsz : Nat) (large : Bool) (cs : List (List β)) (hdr box : List β)
+    (hbox : IsBox large hdr cs.flatten box) (hne : covered large cs.flatten ≠ [])
+    (hcap : Budget fixed hsz large cs) :
+    ∃ leaves mm, finalLeaves fixed large cs = .ok leaves ∧ mkMap fixed hsz 0 leaves = .ok mm
       ∧ validateMaps [mm] [box] = true := by
   cases fixed with
   | some F =>
-    obtain ⟨leaves, mm, ranges, h1, _, h2, hv, h3, h4⟩ :=
-      accumulated_verifies_fixed F (hF F rfl) large cs hdr box 0 hbox hne
+    obtain ⟨leaves, mm, ranges, h1, _, h2, hv, _, h3, h4⟩ :=
+      accumulated_verifies_fixed F (hF F rfl) hsz large cs hdr box 0 hbox hne hcap
     exact ⟨leaves, mm, h1, h2, by simp [validateMaps, hv, h3, h4]⟩
   | none =>
-    obtain ⟨leaves, mm, ranges, h1, _, h2, hv, h3, h4⟩ :=
-      accumulated_verifies_variable large cs hdr box 0 hbox
+    obtain ⟨leaves, mm, ranges, h1, _, h2, hv, _, h3, h4⟩ :=
+      accumulated_verifies_variable hsz large cs hdr box 0 hbox hcap
     exact ⟨leaves, mm, h1, h2, by simp [validateMaps, hv, h3, h4]⟩
 
 /-! ### several mdats: the per-mdat states do not interfere -/
@@ -286,6 +478,61 @@ theorem interleaving_irrelevant (a a' : Acc β) (calls : List (Nat × Bool × Li
         rw [← hother hne, ← hfx]; exact hrest
     · simp at h
 
+/-! ### ids stay ascending and duplicate-free (`BTreeMap` order = file order of the mdats) -/
+
+theorem Acc.add_keys (a a' : Acc β) (id : Nat) (large : Bool) (data : List β)
+    (h : a.add id large data = .ok a') :
+    ((keys a.mdats).Pairwise (· < ·) → (keys a'.mdats).Pairwise (· < ·))
+      ∧ ∀ k, k ∈ keys a'.mdats ↔ k = id ∨ k ∈ keys a.mdats := by
+  simp only [Acc.add] at h
+  split at h
+  · simp only [Except.ok.injEq] at h
+    subst h
+    exact ⟨insertSt_sorted id _ a.mdats, mem_keys_insertSt id _ a.mdats⟩
+  · simp at h
+
+/-- **The accumulator never reorders or duplicates mdats**: whatever the order of the calls, the
+ids it iterates over when the maps are built are strictly ascending (the defect repaired in
+fixes/C17-bmff-hash-mdat-maps.patch was a `HashMap` iteration order on the validator's side of
+this pairing). -/
+theorem Acc.run_sorted (a a' : Acc β) (calls : List (Nat × Bool × List β))
+    (h : a.run calls = .ok a') (hs : (keys a.mdats).Pairwise (· < ·)) :
+    (keys a'.mdats).Pairwise (· < ·) := by
+  induction calls generalizing a with
+  | nil => simp only [Acc.run, Except.ok.injEq] at h; subst h; exact hs
+  | cons c rest ih =>
+    obtain ⟨id, large, data⟩ := c
+    simp only [Acc.run] at h
+    split at h
+    · rename_i a1 h1
+      exact ih a1 h ((Acc.add_keys a a1 id large data h1).1 hs)
+    · simp at h
+
+/-- …and they are exactly the ids the caller used. -/
+theorem Acc.run_keys (a a' : Acc β) (calls : List (Nat × Bool × List β))
+    (h : a.run calls = .ok a') (k : Nat) :
+    k ∈ keys a'.mdats ↔ k ∈ keys a.mdats ∨ ∃ c ∈ calls, c.1 = k := by
+  induction calls generalizing a with
+  | nil => simp only [Acc.run, Except.ok.injEq] at h; subst h; simp
+  | cons c rest ih =>
+    obtain ⟨id, large, data⟩ := c
+    simp only [Acc.run] at h
+    split at h
+    · rename_i a1 h1
+      rw [ih a1 h, (Acc.add_keys a a1 id large data h1).2 k]
+      constructor
+      · rintro ((rfl | hk) | ⟨c, hc, rfl⟩)
+        · exact Or.inr ⟨(k, large, data), by simp, rfl⟩
+        · exact Or.inl hk
+        · exact Or.inr ⟨c, by simp [hc], rfl⟩
+      · rintro (hk | ⟨c, hc, rfl⟩)
+        · exact Or.inl (Or.inr hk)
+        · simp only [List.mem_cons] at hc
+          rcases hc with rfl | hc
+          · exact Or.inl (Or.inl rfl)
+          · exact Or.inr ⟨c, hc, rfl⟩
+    · simp at h
+
 /-! ### assets with several mdat boxes -/
 
 /-- element-wise relation between two lists of the same length -/
@@ -299,6 +546,34 @@ theorem All2.length_eq {α γ : Type} {R : α → γ → Prop} {l₁ : List α} 
   | nil => rfl
   | cons _ _ ih => simp [ih]
 
+theorem All2.of_index {α γ : Type} {R : α → γ → Prop} (l₁ : List α) (l₂ : List γ)
+    (hl : l₁.length = l₂.length)
+    (hr : ∀ (i : Nat) (a : α) (c : γ), l₁[i]? = some a → l₂[i]? = some c → R a c) :
+    All2 R l₁ l₂ := by
+  induction l₁ generalizing l₂ with
+  | nil =>
+    cases l₂ with
+    | nil => exact All2.nil
+    | cons _ _ => simp at hl
+  | cons a as ih =>
+    cases l₂ with
+    | nil => simp at hl
+    | cons c cs =>
+      exact All2.cons (hr 0 a c rfl rfl)
+        (ih cs (by simpa using hl)
+          (fun i a' c' h1 h2 => hr (i + 1) a' c' (by simpa using h1) (by simpa using h2)))
+
+theorem All2.exists_left {α γ : Type} {R : α → γ → Prop} {l₁ : List α} {l₂ : List γ}
+    (h : All2 R l₁ l₂) (c : γ) (hc : c ∈ l₂) : ∃ a ∈ l₁, R a c := by
+  induction h with
+  | nil => simp at hc
+  | @cons a0 c0 as cs hd _ ih =>
+    simp only [List.mem_cons] at hc
+    rcases hc with rfl | hc
+    · exact ⟨a0, by simp, hd⟩
+    · obtain ⟨a, ha, hr⟩ := ih hc
+      exact ⟨a, by simp [ha], hr⟩
+
 /-- one mdat of an asset: how it was delivered and how it lies in the file -/
 structure MdatRun (β : Type) where
   large : Bool
@@ -309,7 +584,7 @@ structure MdatRun (β : Type) where
 /-- what `validate_merkle_maps_mdat_boxes` needs of one (map, box) pair -/
 def GoodMap [DecidableEq β] (mm : MMap β) (box : List β) : Prop :=
   (mm.fixedBlock.isSome && mm.varSizes.isSome) = false
-    ∧ ∃ ranges, mdatRanges mm box = some ranges ∧ checkMap mm ranges = true
+    ∧ ∃ ranges, mdatRanges mm box = .ok ranges ∧ checkMap mm ranges = true
 
 theorem validateMaps_of_good [DecidableEq β] (mms : List (MMap β)) (boxes : List (List β))
     (h : All2 GoodMap mms boxes) : validateMaps mms boxes = true := by
@@ -320,8 +595,8 @@ theorem validateMaps_of_good [DecidableEq β] (mms : List (MMap β)) (boxes : Li
   have hlen : boxes.length = mms.length := h.length_eq.symm
   have hall : ((List.zip boxes mms).all fun (box, mm) =>
       match mdatRanges mm box with
-      | some ranges => checkMap mm ranges
-      | none => false) = true := by
+      | .ok ranges => checkMap mm ranges
+      | .error _ => false) = true := by
     induction h with
     | nil => rfl
     | @cons m0 b0 ms bs hd _ ih =>
@@ -334,51 +609,266 @@ theorem validateMaps_of_good [DecidableEq β] (mms : List (MMap β)) (boxes : Li
   simp only [validateMaps, hany, Bool.false_eq_true, if_false, hlen, ne_eq, not_true_eq_false]
   exact hall
 
-/-- **Several mdats.** If every mdat of the asset was delivered completely (in any chunking,
-its state `p.2` being the result of its own chunk sequence — see `interleaving_irrelevant`),
-lies in the file as header ‖ payload, and has a non-empty covered payload, then the MerkleMaps
-`update_hash_from_stream` stores verify against the asset's mdat boxes. -/
+/-- one mdat was delivered completely (state `st` = result of its own chunk sequence), lies in
+the file as header ‖ payload, has a covered byte and respects the leaf budget -/
+def Delivered (fixed : Option Nat) (hsz : Nat) (st : MdatState β) (r : MdatRun β) : Prop :=
+  runMdat fixed r.large {} r.cs = .ok st
+    ∧ IsBox r.large r.hdr r.cs.flatten r.box ∧ covered r.large r.cs.flatten ≠ []
+    ∧ Budget fixed hsz r.large r.cs
+
+/-- **Several mdats, from per-mdat states.** If every mdat of the asset was delivered completely
+(in any chunking — see `interleaving_irrelevant`), then the MerkleMaps `update_hash_from_stream`
+stores verify against the asset's mdat boxes; one map per mdat, in the order of the states. -/
 theorem multi_mdat_asset_verifies [DecidableEq β] (fixed : Option Nat)
-    (hF : ∀ F, fixed = some F → 1 < F) (sts : List (Nat × MdatState β)) (runs : List (MdatRun β))
-    (h : All2 (fun p r => runMdat fixed r.large {} r.cs = .ok p.2
-      ∧ IsBox r.large r.hdr r.cs.flatten r.box ∧ covered r.large r.cs.flatten ≠ []) sts runs) :
-    ∃ mms, createMms fixed sts = .ok mms ∧ validateMaps mms (runs.map (·.box)) = true := by
-  suffices hs : ∃ mms, createMms fixed sts = .ok mms ∧ All2 GoodMap mms (runs.map (·.box)) by
-    obtain ⟨mms, h1, h2⟩ := hs
-    exact ⟨mms, h1, validateMaps_of_good mms _ h2⟩
+    (hF : ∀ F, fixed = some F → 1 < F) (hsz : Nat) (sts : List (Nat × MdatState β))
+    (runs : List (MdatRun β))
+    (h : All2 (fun p r => Delivered fixed hsz p.2 r) sts runs) :
+    ∃ mms, createMms fixed hsz sts = .ok mms ∧ validateMaps mms (runs.map (·.box)) = true
+      ∧ mms.map (·.id) = sts.map (·.1) := by
+  suffices hs : ∃ mms, createMms fixed hsz sts = .ok mms ∧ All2 GoodMap mms (runs.map (·.box))
+      ∧ mms.map (·.id) = sts.map (·.1) by
+    obtain ⟨mms, h1, h2, h3⟩ := hs
+    exact ⟨mms, h1, validateMaps_of_good mms _ h2, h3⟩
   induction h with
-  | nil => exact ⟨[], rfl, All2.nil⟩
+  | nil => exact ⟨[], rfl, All2.nil, rfl⟩
   | @cons p r ps rs hd _ ih =>
-    obtain ⟨mms, hm, hg⟩ := ih
+    obtain ⟨mms, hm, hg, hi⟩ := ih
     obtain ⟨id, st⟩ := p
-    obtain ⟨hrun, hbox, hne⟩ := hd
+    obtain ⟨hrun, hbox, hne, hcap⟩ := hd
     have hfin : finalLeaves fixed r.large r.cs = .ok (flush st).leaves := by
       simp only [finalLeaves]; simp only at hrun; rw [hrun]
     cases fixed with
     | some F =>
-      obtain ⟨leaves, mm, ranges, h1, hnl, h2, hv, h3, h4⟩ :=
-        accumulated_verifies_fixed F (hF F rfl) r.large r.cs r.hdr r.box id hbox hne
+      obtain ⟨leaves, mm, ranges, h1, hnl, h2, hv, hid, h3, h4⟩ :=
+        accumulated_verifies_fixed F (hF F rfl) hsz r.large r.cs r.hdr r.box id hbox hne hcap
       rw [hfin] at h1
       have hl : (flush st).leaves = leaves := by simpa using h1
-      have hne' : (flush st).leaves.isEmpty = false := by
-        rw [hl]; cases leaves with
+      have hne2 : leaves.isEmpty = false := by
+        cases leaves with
         | nil => exact absurd rfl hnl
         | cons _ _ => rfl
-      refine ⟨mm :: mms, ?_, All2.cons ⟨by simp [hv], ranges, h3, h4⟩ hg⟩
-      have hne2 : leaves.isEmpty = false := by rw [← hl]; exact hne'
+      refine ⟨mm :: mms, ?_, All2.cons ⟨by simp [hv], ranges, h3, h4⟩ hg, by simp [hid, hi]⟩
       simp only [createMms, hl, hne2, Bool.false_eq_true, if_false, h2, hm]
     | none =>
-      obtain ⟨leaves, mm, ranges, h1, hnl, h2, hv, h3, h4⟩ :=
-        accumulated_verifies_variable r.large r.cs r.hdr r.box id hbox
+      obtain ⟨leaves, mm, ranges, h1, hnl, h2, hv, hid, h3, h4⟩ :=
+        accumulated_verifies_variable hsz r.large r.cs r.hdr r.box id hbox hcap
       rw [hfin] at h1
       have hl : (flush st).leaves = leaves := by simpa using h1
-      have hne' : (flush st).leaves.isEmpty = false := by
-        rw [hl]; cases leaves with
+      have hne2 : leaves.isEmpty = false := by
+        cases leaves with
         | nil => exact absurd rfl (hnl hne)
         | cons _ _ => rfl
-      refine ⟨mm :: mms, ?_, All2.cons ⟨by simp [hv], ranges, h3, h4⟩ hg⟩
-      have hne2 : leaves.isEmpty = false := by rw [← hl]; exact hne'
+      refine ⟨mm :: mms, ?_, All2.cons ⟨by simp [hv], ranges, h3, h4⟩ hg, by simp [hid, hi]⟩
       simp only [createMms, hl, hne2, Bool.false_eq_true, if_false, h2, hm]
+
+/-- **The whole history, from the caller's calls to the verdict.**  A fresh accumulator receives
+an arbitrary interleaving `calls` of chunks for the mdats `0 … n-1` (the ids used are exactly the
+positions of the mdat boxes in the file: `hids`), each mdat's chunks concatenating, in call
+order, to the payload that lies in its box.  Then `update_hash_from_stream` stores one
+MerkleMap per mdat, with ids `0 … n-1` in file order, and they verify against the asset's mdat
+boxes. -/
+theorem run_then_verify [DecidableEq β] (fixed : Option Nat) (hF : ∀ F, fixed = some F → 1 < F)
+    (hsz : Nat) (calls : List (Nat × Bool × List β)) (a' : Acc β)
+    (h : ({ fixed := fixed } : Acc β).run calls = .ok a') (runs : List (MdatRun β))
+    (hids : ∀ i, i < runs.length ↔ ∃ c ∈ calls, c.1 = i)
+    (hr : ∀ i r, runs[i]? = some r →
+      (calls.filter (fun c => c.1 = i)).map (·.2.2) = r.cs
+        ∧ (∀ c ∈ calls, c.1 = i → c.2.1 = r.large)
+        ∧ IsBox r.large r.hdr r.cs.flatten r.box ∧ covered r.large r.cs.flatten ≠ []
+        ∧ Budget fixed hsz r.large r.cs) :
+    ∃ mms, createMms fixed hsz a'.mdats = .ok mms
+      ∧ validateMaps mms (runs.map (·.box)) = true
+      ∧ mms.map (·.id) = List.range runs.length := by
+  have hfx : a'.fixed = fixed := Acc.run_fixed _ a' calls h
+  have hsorted : (keys a'.mdats).Pairwise (· < ·) :=
+    Acc.run_sorted _ a' calls h (by simp [keys])
+  have hkeys : keys a'.mdats = List.range runs.length := by
+    apply sorted_eq_range _ _ hsorted
+    intro k
+    rw [Acc.run_keys _ a' calls h k, hids k]
+    simp [keys]
+  have htab := sorted_lookup a'.mdats hsorted
+  rw [hkeys] at htab
+  have hall : All2 (fun p r => Delivered fixed hsz p.2 r) a'.mdats runs := by
+    apply All2.of_index
+    · have : (keys a'.mdats).length = runs.length := by rw [hkeys]; simp
+      simpa [keys] using this
+    · intro i p r hp hri
+      obtain ⟨hcs, hlarge, hbox, hne, hcap⟩ := hr i r hri
+      have hi : i < runs.length := by
+        have := (List.getElem?_eq_some_iff.mp hri).1; exact this
+      have hp' : p = (i, lookupSt i a'.mdats) := by
+        rw [htab] at hp
+        simp only [List.getElem?_map, List.getElem?_range hi, Option.map_some,
+          Option.some.injEq] at hp
+        exact hp.symm
+      have hint := interleaving_irrelevant _ a' calls h i r.large hlarge
+      simp only [lookupSt] at hint
+      rw [hcs] at hint
+      subst hp'
+      exact ⟨hint, hbox, hne, hcap⟩
+  obtain ⟨mms, h1, h2, h3⟩ := multi_mdat_asset_verifies fixed hF hsz a'.mdats runs hall
+  refine ⟨mms, h1, h2, ?_⟩
+  rw [h3]; exact hkeys
+
+/-! ### mdats without a covered byte -/
+
+theorem finalLeaves_nil_of_uncovered (fixed : Option Nat) (hF : ∀ F, fixed = some F → 0 < F)
+    (large : Bool) (cs : List (List β)) (h : covered large cs.flatten = []) :
+    finalLeaves fixed large cs = .ok [] := by
+  cases fixed with
+  | some F => exact (no_leaves_iff_nothing_covered F (hF F rfl) large cs).mpr h
+  | none =>
+    obtain ⟨pieces, hfin, hp, hfl, _⟩ := variable_sizes_sum large cs
+    rw [h] at hfl
+    have : pieces = [] := by
+      cases pieces with
+      | nil => rfl
+      | cons p ps =>
+        have hp0 := hp p (by simp)
+        have : p = [] := by
+          have := congrArg List.length hfl
+          simp only [List.flatten_cons, List.length_append, List.length_nil] at this
+          exact List.length_eq_zero_iff.mp (by omega)
+        exact absurd this hp0
+    rw [hfin, this]; rfl
+
+/-- No mdat has a byte outside the 16-byte exclusion ⇒ `update_hash_from_stream` stores no
+Merkle map at all (the BMFF hash is then the flat hash with its ordinary exclusions, outside this
+model). -/
+theorem all_uncovered_no_maps (fixed : Option Nat) (hF : ∀ F, fixed = some F → 0 < F) (hsz : Nat)
+    (sts : List (Nat × MdatState β)) (runs : List (MdatRun β))
+    (h : All2 (fun p r => runMdat fixed r.large {} r.cs = .ok p.2
+      ∧ covered r.large r.cs.flatten = []) sts runs) :
+    createMms fixed hsz sts = .ok [] := by
+  induction h with
+  | nil => rfl
+  | @cons p r ps rs hd _ ih =>
+    obtain ⟨id, st⟩ := p
+    obtain ⟨hrun, hunc⟩ := hd
+    have hfin := finalLeaves_nil_of_uncovered fixed hF r.large r.cs hunc
+    simp only [finalLeaves] at hfin
+    simp only at hrun
+    rw [hrun] at hfin
+    have hl : (flush st).leaves = [] := by simpa using hfin
+    simp only [createMms, hl, List.isEmpty_nil, if_true, ih]
+
+theorem createMms_length (fixed : Option Nat) (hsz : Nat) (sts : List (Nat × MdatState β))
+    (mms : List (MMap β)) (h : createMms fixed hsz sts = .ok mms) :
+    mms.length ≤ sts.length
+      ∧ ((∃ p ∈ sts, (flush p.2).leaves = []) → mms.length < sts.length) := by
+  induction sts generalizing mms with
+  | nil => simp only [createMms, Except.ok.injEq] at h; subst h; simp
+  | cons p ps ih =>
+    obtain ⟨id, st⟩ := p
+    simp only [createMms] at h
+    split at h
+    · rename_i hemp
+      obtain ⟨i1, _⟩ := ih mms h
+      exact ⟨by simp only [List.length_cons]; omega, fun _ => by simp only [List.length_cons]; omega⟩
+    · rename_i hnemp
+      split at h
+      · rename_i m ms hm hms
+        simp only [Except.ok.injEq] at h
+        subst h
+        obtain ⟨i1, i2⟩ := ih ms hms
+        refine ⟨by simp only [List.length_cons]; omega, ?_⟩
+        rintro ⟨q, hq, hql⟩
+        simp only [List.mem_cons] at hq
+        rcases hq with rfl | hq
+        · simp only at hql
+          rw [hql] at hnemp
+          simp at hnemp
+        · have := i2 ⟨q, hq, hql⟩
+          simp only [List.length_cons]; omega
+      · simp at h
+      · simp at h
+
+/-- **The open finding `multi-mdat-with-uncovered-mdat`, as a theorem about the code**: when one
+mdat of the asset has no covered byte while some other has, fewer maps are stored than there are
+mdat boxes and the validator rejects the asset — for every chunking.  (The full statement
+"every asset reads back Valid" is false for these inputs; `run_then_verify` therefore asks for a
+covered byte in every mdat.) -/
+theorem uncovered_mdat_rejected [DecidableEq β] (fixed : Option Nat)
+    (hF : ∀ F, fixed = some F → 0 < F) (hsz : Nat) (sts : List (Nat × MdatState β))
+    (runs : List (MdatRun β)) (mms : List (MMap β))
+    (h : All2 (fun p r => runMdat fixed r.large {} r.cs = .ok p.2) sts runs)
+    (hunc : ∃ r ∈ runs, covered r.large r.cs.flatten = [])
+    (hm : createMms fixed hsz sts = .ok mms) :
+    mms.length < runs.length ∧ validateMaps mms (runs.map (·.box)) = false := by
+  obtain ⟨r, hr, hcov⟩ := hunc
+  obtain ⟨p, hp, hrun⟩ := h.exists_left r hr
+  have hfin := finalLeaves_nil_of_uncovered fixed hF r.large r.cs hcov
+  simp only [finalLeaves, hrun] at hfin
+  have hl : (flush p.2).leaves = [] := by simpa using hfin
+  have hlt := (createMms_length fixed hsz sts mms hm).2 ⟨p, hp, hl⟩
+  rw [h.length_eq] at hlt
+  refine ⟨hlt, ?_⟩
+  have hne : ¬ (runs.map (·.box)).length = mms.length := by simp; omega
+  simp only [validateMaps]
+  split
+  · rfl
+  · simp [hne]
+
+/-! ### histories: a second `update_hash_from_stream`, and the leaf-size setter -/
+
+theorem createMms_flushed (fixed : Option Nat) (hsz : Nat) (sts : List (Nat × MdatState β)) :
+    createMms fixed hsz (sts.map fun p => (p.1, flush p.2)) = createMms fixed hsz sts := by
+  induction sts with
+  | nil => rfl
+  | cons p ps ih =>
+    obtain ⟨id, st⟩ := p
+    simp only [List.map_cons, createMms, flush_idempotent, ih]
+
+/-- **Calling `update_hash_from_stream` again changes nothing**: the remainders were drained by
+the first call, so the second one stores the same maps and leaves the same state. -/
+theorem update_hash_twice (a a1 : Acc β) (hsz : Nat) (mms : List (MMap β))
+    (h : a.updateHash hsz = .ok (a1, mms)) : a1.updateHash hsz = .ok (a1, mms) := by
+  simp only [Acc.updateHash] at h
+  split at h
+  · rename_i mms' hm
+    simp only [Except.ok.injEq, Prod.mk.injEq] at h
+    obtain ⟨rfl, rfl⟩ := h
+    simp only [Acc.updateHash, createMms_flushed, hm, List.map_map]
+    congr 3
+    apply List.map_congr_left
+    intro p _
+    simp [flush_idempotent]
+  · simp at h
+
+/-- **The defect repaired in the flush** (the reviewer's `flush_twice`): the old flush kept the
+remainder, so a second `update_hash_from_stream` (a retry after an I/O error, say) appended the
+same partial leaf again and the stored leaves no longer matched the payload. -/
+theorem pre_fix_flush_twice (st : MdatState β) (h : st.rem ≠ none) :
+    (flushPre (flushPre st)).leaves ≠ (flushPre st).leaves := by
+  cases hr : st.rem with
+  | none => exact absurd hr h
+  | some b =>
+    intro e
+    have := congrArg List.length e
+    simp [flushPre, hr] at this
+
+/-- the first flush is the same before and after the repair, only the state it leaves differs -/
+theorem flushPre_leaves (st : MdatState β) : (flushPre st).leaves = (flush st).leaves := by
+  unfold flushPre flush
+  cases st.rem <;> rfl
+
+/-- a history without `setFixed` is a `run` -/
+theorem runOps_adds (a : Acc β) (calls : List (Nat × Bool × List β)) :
+    a.runOps (calls.map fun c => Op.add c.1 c.2.1 c.2.2) = a.run calls := by
+  induction calls generalizing a with
+  | nil => rfl
+  | cons c rest ih =>
+    obtain ⟨id, large, data⟩ := c
+    simp only [List.map_cons, Acc.runOps, Acc.step, Acc.run]
+    cases a.add id large data with
+    | ok a1 => exact ih a1
+    | error e => rfl
+
+/-- the documented use of `set_bmff_hash_fixed_leaf_size`: before the first chunk it is the same
+as an accumulator created with that leaf size, so every theorem above applies -/
+theorem setFixed_first (bytes : Nat) (ops : List (Op β)) :
+    ({} : Acc β).runOps (.setFixed bytes :: ops) = ({ fixed := some bytes } : Acc β).runOps ops := rfl
 
 /-! ### non-vacuity and the repaired inputs -/
 
@@ -402,8 +892,106 @@ example :
 -- the hypotheses of `accumulated_verifies_fixed` are satisfiable
 example : IsBox false [100, 101, 102, 103, 104, 105, 106, 107] [0, 1, 2, 3, 4, 5, 6, 7, 8, 9]
     [100, 101, 102, 103, 104, 105, 106, 107, 0, 1, 2, 3, 4, 5, 6, 7, 8, 9] ∧
-    covered false [0, 1, 2, 3, 4, 5, 6, 7, 8, 9] ≠ ([] : List Nat) := by
-  refine ⟨⟨rfl, rfl⟩, ?_⟩
+    covered false [0, 1, 2, 3, 4, 5, 6, 7, 8, 9] ≠ ([] : List Nat) ∧
+    Budget (some 4) 32 false [[0, 1, 2], [3, 4, 5, 6, 7, 8, 9]] := by
+  refine ⟨⟨rfl, rfl⟩, ?_, ?_⟩
+  · decide
+  · decide
+
+-- the budget really excludes something: 2^20 + 1 leaves of SHA-256 are refused, 2^20 are not
+example : capOk 32 1048577 = false ∧ capOk 32 1048576 = true := by decide
+
+/-- two mdats (a standard one and a large-size one) delivered interleaved -/
+def exCalls : List (Nat × Bool × List Nat) :=
+  [(0, false, [0, 1, 2]), (1, true, [50, 51, 52]), (0, false, [3, 4, 5, 6, 7, 8, 9, 10]),
+   (1, true, [53, 54]), (0, false, [11, 12])]
+
+def exRuns : List (MdatRun Nat) :=
+  [{ large := false, cs := [[0, 1, 2], [3, 4, 5, 6, 7, 8, 9, 10], [11, 12]],
+     hdr := [100, 101, 102, 103, 104, 105, 106, 107],
+     box := [100, 101, 102, 103, 104, 105, 106, 107, 0, 1, 2, 3, 4, 5, 6, 7, 8, 9, 10, 11, 12] },
+   { large := true, cs := [[50, 51, 52], [53, 54]],
+     hdr := [200, 201, 202, 203, 204, 205, 206, 207, 208, 209, 210, 211, 212, 213, 214, 215],
+     box := [200, 201, 202, 203, 204, 205, 206, 207, 208, 209, 210, 211, 212, 213, 214, 215,
+             50, 51, 52, 53, 54] }]
+
+-- the hypotheses of `run_then_verify` hold for this two-mdat history (fixed leaf size 2) …
+example :
+    (∀ i, i < exRuns.length ↔ ∃ c ∈ exCalls, c.1 = i)
+    ∧ ∀ i r, exRuns[i]? = some r →
+      (exCalls.filter (fun c => c.1 = i)).map (·.2.2) = r.cs
+        ∧ (∀ c ∈ exCalls, c.1 = i → c.2.1 = r.large)
+        ∧ IsBox r.large r.hdr r.cs.flatten r.box ∧ covered r.large r.cs.flatten ≠ []
+        ∧ Budget (some 2) 32 r.large r.cs := by
+  constructor
+  · intro i
+    constructor
+    · intro hi
+      have : i = 0 ∨ i = 1 := by simp [exRuns] at hi; omega
+      rcases this with rfl | rfl
+      · exact ⟨(0, false, [0, 1, 2]), by simp [exCalls], rfl⟩
+      · exact ⟨(1, true, [50, 51, 52]), by simp [exCalls], rfl⟩
+    · rintro ⟨c, hc, rfl⟩
+      simp only [exCalls, List.mem_cons, List.not_mem_nil, or_false] at hc
+      rcases hc with rfl | rfl | rfl | rfl | rfl <;> simp [exRuns]
+  · intro i r hr
+    match i, hr with
+    | 0, hr =>
+      simp only [exRuns, List.getElem?_cons_zero, Option.some.injEq] at hr
+      subst hr
+      refine ⟨by decide, by decide, ⟨rfl, rfl⟩, by decide, by decide⟩
+    | 1, hr =>
+      simp only [exRuns, List.getElem?_cons_succ, List.getElem?_cons_zero, Option.some.injEq] at hr
+      subst hr
+      refine ⟨by decide, by decide, ⟨rfl, rfl⟩, by decide, by decide⟩
+    | n + 2, hr => simp [exRuns] at hr
+
+-- … and its conclusion can be observed directly: two maps, ids 0 and 1, verifying
+example :
+    (match ({ fixed := some 2 } : Acc Nat).run exCalls with
+     | .ok a' =>
+       match createMms (some 2) 32 a'.mdats with
+       | .ok mms => mms.map (·.id) == [0, 1] && validateMaps mms (exRuns.map (·.box))
+       | .error _ => false
+     | .error _ => false) = true := by
+  decide +kernel
+
+-- second mdat delivered first: the maps still come out in id (= file) order
+example :
+    (match ({ fixed := none } : Acc Nat).run
+        [(1, true, [50, 51, 52]), (0, false, [0, 1, 2, 3, 4, 5, 6, 7, 8, 9]), (1, true, [53])] with
+     | .ok a' => keys a'.mdats == [0, 1]
+     | .error _ => false) = true := by
+  decide +kernel
+
+-- lowering the leaf size below a buffered partial leaf is refused (it used to underflow:
+-- a panic in debug builds, a wrapped length and a lost chunk boundary in release builds)
+example :
+    (match ({ fixed := some 8 } : Acc Nat).runOps
+        [.add 0 true [0, 1, 2, 3, 4], .setFixed 4, .add 0 true [5]] with
+     | .error .badParam => true
+     | _ => false) = true := by
+  decide +kernel
+
+-- changing the leaf size between chunks otherwise records leaves of mixed sizes under one
+-- `fixed_block_size`; the validator rejects that map (this is why the setter is documented to
+-- be called before the first chunk, and why `leaves_depend_on_concat` fixes `F` for the history)
+example :
+    (match ({ fixed := some 4 } : Acc Nat).runOps
+        [.add 0 true [0, 1, 2, 3, 4, 5], .setFixed 2, .add 0 true [6, 7, 8]] with
+     | .ok a' =>
+       match createMms a'.fixed 32 a'.mdats with
+       | .ok mms =>
+         mms.map (·.count) == [4]
+           && !validateMaps mms [(List.range 16).map (· + 100) ++ [0, 1, 2, 3, 4, 5, 6, 7, 8]]
+       | .error _ => false
+     | .error _ => false) = true := by
+  decide +kernel
+
+-- the old flush on a concrete state: the 2-byte remainder is recorded twice
+example :
+    ((flushPre (flushPre ({ leaves := [], rem := some [7, 8] } : MdatState Nat))).leaves.length,
+     (flush (flush ({ leaves := [], rem := some [7, 8] } : MdatState Nat))).leaves.length) = (2, 1) := by
   decide
 
 end C2pa.C17
